@@ -2,8 +2,8 @@
 package c14
 
 import (
+	"encoding/json"
 	"fmt"
-	"os"
 	"sort"
 	"strings"
 	"testing"
@@ -106,14 +106,14 @@ func at(src []byte, key string) string {
 }
 
 func TestGeneratedPrograms(t *testing.T) {
-	harness.Check(t, "programs", 25000, 800000, func(rt *rapid.T) {
+	harness.Check(t, "programs", 160000, 2400000, func(rt *rapid.T) {
 		v := rapid.SampledFrom([]px.Ver{px.V74, px.V74, {Major: 7, Minor: 0}, px.V56}).Draw(rt, "version")
 		b := &builder{rt: rt, want: map[string]expectation{}, php7: !v.IsPHP5(), feats: map[string]int{}, used: map[string]bool{}}
 		b.program()
 		src := []byte(b.b.String())
 		harness.Eval()
 		if m := compare(src, v, b.want); m != "" {
-			harness.Fail(rt, "resolution", src, map[string]string{"version": v.String()}, "[%s] %s\nsource:\n%s", v, m, src)
+			harness.Fail(rt, "resolution", src, map[string]string{"version": v.String(), "want": wantJSON(b.want)}, "[%s] %s\nsource:\n%s", v, m, src)
 		}
 		positions := 0
 		for k, n := range b.feats {
@@ -145,6 +145,10 @@ var fixed = []fixedCase{
 	{"<?php namespace App; use Lib\\Util\\{function helper, Widget}; new Widget; Widget();", map[string]string{"Widget;": "Lib\\Util\\Widget", "Widget()": "App\\Widget"}},
 	{"<?php namespace App; use Foo\\Bar as B; use const Foo\\VALUE; $f = fn(B $x): B\\C => VALUE;", map[string]string{"B $x": "Foo\\Bar", "B\\C": "Foo\\Bar\\C", "VALUE;": "Foo\\VALUE"}},
 	{"<?php namespace N; use const A\\K; echo K, k;", map[string]string{"K,": "A\\K", "k;": "N\\k"}},
+	// PHP folds A-Z only (fixed in /repo by b95d6c3: strings.ToLower folded by Unicode rules)
+	{"<?php namespace N; use X\\\xc3\x84bc; new \xc3\xa4bc; new \xc3\x84BC;", map[string]string{"\xc3\xa4bc;": "N\\\xc3\xa4bc", "\xc3\x84BC;": "X\\\xc3\x84bc"}},
+	{"<?php namespace N; use function X\\k; \xe2\x84\xaa(); K();", map[string]string{"\xe2\x84\xaa()": "N\\\xe2\x84\xaa", "K()": "X\\k"}},
+	{"<?php namespace N; use X\\\xc4x; function f(\xe4x $a, \xc4\xb0nt $b) {}", map[string]string{"\xe4x $a": "N\\\xe4x", "\xc4\xb0nt $b": "N\\\xc4\xb0nt"}},
 }
 
 func TestFixedPrograms(t *testing.T) {
@@ -176,13 +180,54 @@ func TestFixedPrograms(t *testing.T) {
 	}
 }
 
-func TestCorpusReplay(t *testing.T) {
-	_ = os.Stdout
+func wantJSON(w map[string]expectation) string {
+	type e struct {
+		FQ      string `json:"fq"`
+		Special bool   `json:"special,omitempty"`
+		What    string `json:"what"`
+	}
+	m := map[string]e{}
+	for k, x := range w {
+		m[k] = e{x.fq, x.special, x.what}
+	}
+	b, _ := json.Marshal(m)
+	return string(b)
 }
 
+// TestReplay re-evaluates a recorded violation: the replay file carries the source and, in its meta
+// data, the expectations PHP's rules give for it (computed by the model when the case was drawn).
 func TestReplay(t *testing.T) {
-	if harness.ReplayPath() == "" {
+	path := harness.ReplayPath()
+	if path == "" {
 		t.Skip("no VERIF_REPLAY")
 	}
-	t.Skip("generated programs replay through the rapid seed recorded in the replay file; the source is in the replay file")
+	vi, src, err := harness.LoadReplay(path)
+	if err != nil {
+		t.Fatal(err)
+	}
+	if vi.Meta["want"] == "" {
+		t.Skip("a fixed program: re-run the check (TestFixedPrograms)")
+	}
+	var m map[string]struct {
+		FQ      string `json:"fq"`
+		Special bool   `json:"special"`
+		What    string `json:"what"`
+	}
+	if err := json.Unmarshal([]byte(vi.Meta["want"]), &m); err != nil {
+		t.Fatal(err)
+	}
+	want := map[string]expectation{}
+	for k, x := range m {
+		g := k
+		if i := strings.IndexByte(k, '@'); i >= 0 {
+			g = k[:i]
+		}
+		want[k] = expectation{g, x.FQ, x.Special, x.What}
+	}
+	var v px.Ver
+	fmt.Sscanf(vi.Meta["version"], "%d.%d", &v.Major, &v.Minor)
+	harness.Eval()
+	if msg := compare(src, v, want); msg != "" {
+		harness.Failf(t, "resolution", src, vi.Meta, "[%s] %s", v, msg)
+	}
 }
